@@ -591,8 +591,27 @@ func checkC23(p *Prog, r *Result, tier string) {
 			consts []string
 			cond   map[string]string
 		}
+		// a helper that exists in one backend only (no function of that name in the other) is part of its callers
+		hasSibling := func(f *types.Func) bool {
+			return p.Fn("store/redis.(*Rediaron)."+f.Name()) != nil && p.Fn("store/etcdv3.(*Mercury)."+f.Name()) != nil
+		}
+		var collectIn func(fn *FuncNode, ku *keyUse, seen map[*FuncNode]bool)
+		inline := false
 		collect := func(fn *FuncNode) *keyUse {
 			ku := &keyUse{cond: map[string]string{}}
+			collectIn(fn, ku, map[*FuncNode]bool{fn: true})
+			sort.Strings(ku.consts)
+			// a set: how often a constant is mentioned does not matter
+			uniq := ku.consts[:0]
+			for i, c := range ku.consts {
+				if i == 0 || c != ku.consts[i-1] {
+					uniq = append(uniq, c)
+				}
+			}
+			ku.consts = uniq
+			return ku
+		}
+		collectIn = func(fn *FuncNode, ku *keyUse, seen map[*FuncNode]bool) {
 			var stack []ast.Node
 			ast.Inspect(fn.Body, func(n ast.Node) bool {
 				if n == nil {
@@ -600,6 +619,16 @@ func checkC23(p *Prog, r *Result, tier string) {
 					return false
 				}
 				stack = append(stack, n)
+				if call, ok := n.(*ast.CallExpr); ok {
+					if enc := p.enclosing(fn.Pkg, call.Pos()); enc != nil {
+						if f := enc.Callee(call); inline && f != nil && f.Pkg() == fn.Pkg.Types && !hasSibling(f) {
+							if H := p.ByObj[f]; H != nil && H.Body != nil && !seen[H] && len(seen) < 4 {
+								seen[H] = true
+								collectIn(H, ku, seen)
+							}
+						}
+					}
+				}
 				id, ok := n.(*ast.Ident)
 				if !ok {
 					return true
@@ -617,16 +646,6 @@ func checkC23(p *Prog, r *Result, tier string) {
 				}
 				return true
 			})
-			sort.Strings(ku.consts)
-			// a set: how often a constant is mentioned does not matter
-			uniq := ku.consts[:0]
-			for i, c := range ku.consts {
-				if i == 0 || c != ku.consts[i-1] {
-					uniq = append(uniq, c)
-				}
-			}
-			ku.consts = uniq
-			return ku
 		}
 		nk := 0
 		for _, ef := range p.sortedFuncs("store/etcdv3") {
@@ -641,9 +660,19 @@ func checkC23(p *Prog, r *Result, tier string) {
 			if rf == nil || rf.Body == nil {
 				continue
 			}
+			// the function's own text first; when the two differ there, once more with each backend's private helpers read as
+			// part of their callers (a key built in an extracted helper is still built by the operation)
+			inline = false
 			eu, ru := collect(ef), collect(rf)
 			if len(eu.consts) == 0 && len(ru.consts) == 0 {
 				continue
+			}
+			if strings.Join(eu.consts, ",") != strings.Join(ru.consts, ",") {
+				inline = true
+				if eu2, ru2 := collect(ef), collect(rf); strings.Join(eu2.consts, ",") == strings.Join(ru2.consts, ",") {
+					eu, ru = eu2, ru2
+				}
+				inline = false
 			}
 			if ef.Obj.Name() == "SetNodeStatus" {
 				// redis writes the node status without looking at the node record: recorded as a C25 known finding (waived
